@@ -165,9 +165,19 @@ pub fn run(seed: u64, n: usize, out: &mut Out, focus_tags: bool) {
         let mut forced: Vec<(String, String, String)> = fuse_urls.clone();
         // scripted steps owed after the forced queries are answered: 1 = optimise, 2 = add a third fusable rule
         let mut script: Vec<u8> = if fuse_urls.is_empty() { vec![] } else { vec![1, 1, 2, 1] };
+        // a second script (when the first is not in play): a tagged rule added while its tag is enabled, then
+        // tag changes that rebuild the tagged list, also with the empty tag and a reload in between
+        // 3 = use_tags([T]), 5 = add the rule, 4 = enable an unrelated tag, 6 = disable T, 7 = enable T, 8 = reload
+        let stag: String = r.pick(&["t1", "t2", "", "T1"]).to_string();
+        let stag_urls = vec![("https://cdn.test/stag/x".to_string(), "https://shop.test/".to_string(), "script".to_string())];
+        let mut scripted_tags: Option<(&str, Vec<String>)> = None;
+        let mut scripted_load = false;
+        if script.is_empty() && r.pct(30) {
+            script = match r.below(4) { 0 => vec![4, 5, 3], 1 => vec![7, 6, 8, 5, 3], 2 => vec![4, 9, 5, 3], _ => vec![4, 8, 7, 6, 5, 3] };
+        }
         let long = r.pct(20);
         let steps = 3 + r.below(if long { 55 } else { 14 });
-        let steps = if fuse_urls.is_empty() { steps } else { steps.max(26) };
+        let steps = if fuse_urls.is_empty() && script.is_empty() { steps } else { steps.max(26) };
         for _ in 0..steps {
             // queries owed to the last mutation come first (see `forced`)
             let k = if !forced.is_empty() {
@@ -183,6 +193,18 @@ pub fn run(seed: u64, n: usize, out: &mut Out, focus_tags: bool) {
                     fuse_urls.push((url, "https://shop.test/".to_string(), "image".to_string()));
                 }
                 40
+            } else if let Some(c) = script.last().copied().filter(|c| *c >= 3) {
+                script.pop();
+                forced = stag_urls.clone();
+                match c {
+                    3 => { scripted_tags = Some(("use", vec![stag.clone()])); 0 }
+                    4 => { scripted_tags = Some(("enable", vec!["t3".to_string()])); 0 }
+                    6 => { scripted_tags = Some(("disable", vec![stag.clone()])); 0 }
+                    7 => { scripted_tags = Some(("enable", vec![stag.clone()])); 0 }
+                    5 => { scripted_add = Some(format!("/stag/x$tag={}", stag)); 40 }
+                    9 => { scripted_load = true; 51 }
+                    _ => 47,
+                }
             } else {
                 r.below(100)
             };
@@ -195,8 +217,12 @@ pub fn run(seed: u64, n: usize, out: &mut Out, focus_tags: bool) {
                 if r.pct(10) {
                     ts.push("unknown-tag".into());
                 }
+                let mut kind = *r.pick(&[&"use", &"enable", &"disable"]);
+                if let Some((k2, t2)) = scripted_tags.take() {
+                    kind = k2;
+                    ts = t2;
+                }
                 let tsr: Vec<&str> = ts.iter().map(|s| s.as_str()).collect();
-                let kind = *r.pick(&[&"use", &"enable", &"disable"]);
                 match kind {
                     "use" => {
                         engine.use_tags(&tsr);
@@ -281,6 +307,11 @@ pub fn run(seed: u64, n: usize, out: &mut Out, focus_tags: bool) {
                 let mut ts: Vec<String> = vec![];
                 for _ in 0..r.below(3) {
                     ts.push(r.pick(&tagpool).to_string());
+                }
+                if scripted_load {
+                    // the producer had no tag enabled: what is active after the load is decided by this engine's tags
+                    ts.clear();
+                    scripted_load = false;
                 }
                 let mut producer = Engine::from_rules_parametrised(&with_cos(&accepted), Default::default(), true, optimize);
                 producer.use_tags(&ts.iter().map(|s| s.as_str()).collect::<Vec<_>>());
